@@ -5,6 +5,21 @@ V = os.path.dirname(os.path.dirname(os.path.abspath(__file__)))
 props = [json.loads(l) for l in open(os.path.join(V, "properties.jsonl"))]
 TB = "Trusted: rustc's MIR construction and type checking (nightly 1.97, mir-opt-level=0), the checker's own abstract interpreter / rule code (validated against seeded mutants and benign edits), std collection semantics."
 CLAIMS = {
+ "C19": dict(
+   technique="serde attribute consistency analysis over the syntax tree of every type reachable from ast::Aidl (syn), with crate-local skip predicates and Default impls decided by abstract interpretation of their MIR",
+   text="Static: for the 22 types reachable from ast::Aidl the derive lists, every #[serde(...)] attribute and every field type are checked: a field omitted under skip_serializing_if must have `default`, and the predicate's truth set (std predicates by catalogue, crate-local ones tabulated over all values of the field's type) must be exactly the value Default::default() produces; no one-sided attribute; field types within the round-trippable set.",
+   note="Trusted: serde derive / RON themselves; syn-based extraction; " + TB,
+   design="DESIGN.md section 4, C19"),
+ "C17": dict(
+   technique="per-variant table extraction of Symbol::get_qualified_name / get_name by abstract interpretation, format templates decoded from MIR, sibling-agreement rule against Aidl::get_key",
+   text="Static, exhaustive over symbol kinds: for each of the 11 Symbol variants the returned qualified name is extracted as (format template, provenance of each argument) and compared with the statement (items: the very template and roles of the registration key `package.Name`; members `Owner::member`; package / import dotted names; resolved type -> stored key); get_name likewise; that the stored key equals the registration key is carried by the resolver rules (kind and key come from the project map under the matched import path).",
+   note=TB + " Reads rustc's compact format_args encoding (fails closed on unknown opcodes).",
+   design="DESIGN.md section 4, C17"),
+ "C20": dict(
+   technique="provenance analysis of the formatter by abstract interpretation for every vector length 0..24 (which elements flow into the sentence), plus path rules on the error-conversion functions",
+   text="Static: expected_token_str is interpreted abstractly for each length 0..24 with symbolic elements; the set of elements flowing into the returned sentence must be exactly v[0..n), each once, and nothing else dynamic; from_parse_error is tabulated over the ParseError variants to show the expectation vector reaches the formatter untouched; from_error_recovery keeps the message whole; both error paths use it.",
+   note=TB + " Bounded in the vector length (0..24; the >=3 arm is one expression in len).",
+   design="DESIGN.md section 4, C20"),
  "C12": dict(
    technique="state-ownership analysis over type-checked MIR (who may write Parser's fields, receiver mutability, interior-mutability scan) plus path enumeration of add_content / add_file / remove_content / validate by abstract interpretation",
    text="Static non-interference argument: every access to a field of Parser in the whole crate is enumerated; the only mutable ones are insert(id, ..) in add_content and remove(&id) in remove_content; on every path add_content stores exactly one result tagged and keyed with the caller's id and built only from parsing `content` with a fresh lookup and vector; validate takes &self, recomputes the key map and hands a clone to validation; add_file reaches add_content only after open and read both succeeded and returns the error without touching the parser otherwise; no statics, interior mutability or impure std sources.",
